@@ -201,7 +201,11 @@ def gen_history(rng, name, n, with_purge=False, bad_ratio=0.35):
     for _ in range(n):
         r = rng.random()
         if r < bad_ratio:
-            stmts.append({"text": bad_statements(rng)})
+            t = bad_statements(rng)
+            while not with_purge and "PURGE" in t:
+                # a purge block commits when its other clause happens not to conflict - and a purge may remove the past
+                t = bad_statements(rng)
+            stmts.append({"text": t})
         elif r < bad_ratio + 0.1:
             stmts.append({"text": good_statements(rng), "dry": True})
         elif with_purge and r < bad_ratio + 0.16:
